@@ -39,3 +39,4 @@ def run(prog, rep):
     _rio2s.run_strio(prog, rep)
     from ..rules import r_unit as _runs
     _runs.run_no_static_state(prog, rep)
+    _rio2s.run_string_buffers(prog, rep)
